@@ -148,6 +148,15 @@ pub fn deviations(cfg: &Cfg, alpha: Alpha, g: &Getters, _st: &State, last_layer:
         if cfg.max_rel > 1.0 {
             ops.push(Op::Ra(cfg.ratio * cfg.max_rel, false));
             ops.push(Op::Ra(cfg.ratio / cfg.max_rel, true));
+            if last_layer {
+                // one and two units in the last place outside the range: must be rejected; if
+                // one is accepted, the sizes that follow from it are out of their bounds
+                let up = |x: f64| f64::from_bits(x.to_bits() + 1);
+                let hi = cfg.ratio * cfg.max_rel;
+                ops.push(Op::Ra(up(hi), false));
+                ops.push(Op::Ra(up(up(hi)), false));
+                ops.push(Op::Ra(f64::from_bits((cfg.ratio / cfg.max_rel).to_bits() - 1), false));
+            }
         }
     }
     if cfg.kind.is_sinc() {
@@ -247,6 +256,10 @@ pub fn bad_menu(cfg: &Cfg) -> Vec<Op> {
             ops.push(Op::Bad(Bad::InShort(c, how)));
             ops.push(Op::Bad(Bad::OutShort(c, how)));
         }
+    }
+    if n >= 2 {
+        ops.push(Op::Bad(Bad::InShortBoth));
+        ops.push(Op::Bad(Bad::OutShortBoth));
     }
     if n >= 2 {
         // channel 0 inactive (and empty), channel 1 active and short
